@@ -225,7 +225,18 @@ func (s *LogStore) triggerVerify(r VerificationReport) {
 
 // DeleteRange deletes a range of log entries. The range is inclusive.
 func (s *LogStore) DeleteRange(min uint64, max uint64) error {
-	return s.s.DeleteRange(min, max)
+	if err := s.s.DeleteRange(min, max); err != nil {
+		return err
+	}
+	// The running checksum covers the entries written since sumStartIdx. If any
+	// of those were just removed it no longer describes what this node stores,
+	// so restart it. The next checkpoint then reports no WrittenSum (unknown)
+	// rather than a false in-flight corruption.
+	if start := atomic.LoadUint64(&s.sumStartIdx); start != 0 && max >= start {
+		atomic.StoreUint64(&s.checksum, 0)
+		atomic.StoreUint64(&s.sumStartIdx, 0)
+	}
+	return nil
 }
 
 // Close cleans up the background verification routine and calls Close on the
